@@ -134,6 +134,12 @@ M = [
   ["C18"]),
  ("M37", "handshake: Completed is reported as soon as packet 1 has been answered",
   [], []),
+ ("M38", "server session: the Abort arm `continue`s without clearing the input slice (a call holding an Abort message spins forever) - exercises the hang watchdog",
+  [(SRV, "                        RtmpMessage::Abort { stream_id } => self.handle_abort_message(stream_id)?,", "                        RtmpMessage::Abort { stream_id } => {\n                            self.handle_abort_message(stream_id)?;\n                            continue;\n                        }", 1)],
+  ["C03"]),
+ ("M40", "amf0: strict arrays pre-allocate the declared element count (2^32-1 elements = runaway allocation) - exercises the heap cap / crash supervision",
+  [("amf0/src/deserialization.rs", "    let mut values: Vec<Amf0Value> = Vec::new();\n\n    for _ in 0.._array_count {", "    let mut values: Vec<Amf0Value> = Vec::with_capacity(_array_count as usize);\n\n    for _ in 0.._array_count {", 1)],
+  ["C03"]),
 ]
 
 # reverts of the repairs made in this project: commit subject prefix -> expected property
